@@ -10,6 +10,7 @@ pub const HIST_SIZES: [usize; 10] = [0, 1, 2, 3, 5, 8, 13, 16, 33, 64];
 pub const SIGMA: [&str; 13] = ["a", "b", "h", "-", " ", "\"", "\\", "é", "€", "𐍈", "e", "l", "p"];
 pub const SIGMA_W: [usize; 13] = [14, 12, 8, 8, 12, 5, 3, 8, 7, 7, 3, 3, 3];
 pub const POOL: [&str; 8] = ["a", "b", "ab", "é", "abc", "a b", "€ 𐍈", "abba -h"];
+pub const HELP_POOL: [&str; 8] = ["help", "help ab", "ab x --help", "b -h", "help ha take", "help nope", "ba 1 -h", "help -x"];
 
 #[derive(Clone, Debug)]
 pub struct Profile {
@@ -37,6 +38,7 @@ pub struct Profile {
     pub chunked_sink: bool,
     pub fancy_csi: bool,
     pub end_probe: bool,
+    pub help_lines: bool,
 }
 
 impl Profile {
@@ -65,6 +67,7 @@ impl Profile {
             chunked_sink: true,
             fancy_csi: true,
             end_probe: false,
+            help_lines: false,
         }
     }
 }
@@ -174,7 +177,7 @@ pub fn gen_session(rng: &mut Rng, p: &Profile) -> (SessionCfg, Vec<Op>) {
                 push_bytes(&mut ops, rng, pre.as_bytes());
             }
             2 => {
-                let l = *rng.pick(&POOL);
+                let l = if p.help_lines && rng.chance(50) { *rng.pick(&HELP_POOL) } else { *rng.pick(&POOL) };
                 push_bytes(&mut ops, rng, l.as_bytes());
                 if rng.chance(70) {
                     let e = enter_bytes(rng);
